@@ -213,6 +213,20 @@ func HasDotSegment(name string) bool {
 	return false
 }
 
+// HasEmptySegment reports whether the slash separated name contains an empty
+// segment other than a single trailing one (a directory object): "/a", "a//b"
+// or "a//". The file system resolves such a name to the same file as a
+// DIFFERENT name without the empty segment, so an access decision taken for
+// the name given would be applied to another object
+func HasEmptySegment(name string) bool {
+	if name == "" {
+		return false
+	}
+	name = strings.TrimSuffix(name, "/")
+	return name == "" || strings.HasPrefix(name, "/") ||
+		strings.HasSuffix(name, "/") || strings.Contains(name, "//")
+}
+
 // IsValidId reports whether the client supplied upload id or version id
 // can be used as a single file name
 func IsValidId(id string) bool {
@@ -237,7 +251,7 @@ func ParseCopySource(copySourceHeader string) (string, string, string, error) {
 	if !ok {
 		return "", "", "", s3err.GetAPIError(s3err.ErrInvalidCopySource)
 	}
-	if HasDotSegment(copySource) || !IsValidId(versionId) {
+	if HasDotSegment(copySource) || HasEmptySegment(copySource) || !IsValidId(versionId) {
 		return "", "", "", s3err.GetAPIError(s3err.ErrInvalidCopySource)
 	}
 
